@@ -92,6 +92,8 @@ def r1_escape_return_mode(ctx):
     g = ctx.cfg(f, policy=lambda fn: pol, key='c09-sites')
     rd = ReachingDefs(g, receiver='self')
     loops = [n for n in g.nodes if n.kind == 'for' and not n.dup and mentions_self_attr(n.ast.iter, '_parts')]
+    if len(loops) > 1:
+        loops = [n for n in loops if n.ast is rr.loop.ast]      # the loop that executes the parts (a helper expanded into run may bring another)
     need(len(loops) == 1, 'C09.R1: part loop not found')
     loop = loops[0]
     iter_entry, cut = graph.region_of_loop(g, loop)
